@@ -77,12 +77,28 @@ def folded(P, f, b, i, namevar, depth=3, seen=None):
     return False, w
 
 
-def stack_key_folded(P, f, b, i, namevar):
+def stack_key_folded(P, f, b, i, namevar, depth=3):
     """Key of the named-stack list: folded in the function itself, or every source the key is filled from is in
-    canonical case (an upper-case literal; a parameter every caller has passed through NLS_UpString)."""
+    canonical case (an upper-case literal; a parameter every caller has passed through NLS_UpString).  A key that
+    is itself a parameter (the search moved into a helper) is followed to every call site."""
     edge, elem = fold_preds(namevar)
     ok, w = f.guarded(b, i, edge, elem)
     if ok:
+        return True, []
+    if namevar[0] == 's':
+        return (namevar[1] == namevar[1].upper()), ['literal %r' % namevar[1]]
+    if namevar[0] == 'p':
+        pn = [p['name'] for p in f.params]
+        sites = call_sites(P, f)
+        if depth <= 0 or namevar[1] not in pn or not sites:
+            return False, w
+        pi = pn.index(namevar[1])
+        for (g, b3, i3, l3, n3, d3) in sites:
+            if pi >= len(n3[2]):
+                return False, w
+            ok3, w3 = stack_key_folded(P, g, b3, i3, nocast(n3[2][pi]), depth - 1)
+            if not ok3:
+                return False, w + ['<-called from %s:%d' % (g.qname, l3)] + w3
         return True, []
     srcs = [(b2, i2, ln, n) for b2, i2, ln, n in f.calls({'strmaxcpy', 'strcpy', 'ExpandStrSymbol'}) if n[2] and nocast(n[2][0]) == namevar]
     if not srcs:
